@@ -5,6 +5,7 @@ From Coq Require Import String Lia.
 From AV Require Import Base.Util Model.Prim Model.MsgSet Model.Requests Model.EncDSL Model.EncAst
      Proofs.ReqParseGroup Proofs.ReqParseProducer.
 Open Scope string_scope.
+Open Scope list_scope.
 
 (* ---- arguments as values ---- *)
 Definition vbytes (b : list Z) : val := VStr (Some b).
@@ -22,6 +23,7 @@ Proof. cbn [pack_list]. destruct (pack f z); cbn [bind]; [now rewrite app_nil_r|
 
 (* flatten nested do-blocks by cases on every step, then compare the concatenations *)
 Ltac bind_cases :=
+  unfold text, obytes in *;
   repeat match goal with
          | |- context [bind ?e _] =>
              lazymatch e with
@@ -74,3 +76,278 @@ Theorem leave_group_sound cid corr group member :
   run ast_encode_leave_group_request [vbytes cid; VInt corr; VRec [("group", VStr group); ("member_id", VStr member)]]
   = encode_leave_group_request cid corr group member.
 Proof. unfold ast_encode_leave_group_request, encode_leave_group_request, LEAVE_GROUP_KEY. dsl. bind_cases. Qed.
+
+(* ------------------------------------------------------------------ JoinGroup, SyncGroup and the embedded blobs *)
+Definition join_val (p : join_group_request) : val :=
+  VRec [("group", VStr (jg_group p)); ("session_timeout", VInt (jg_session_timeout p)); ("member_id", VStr (jg_member_id p));
+        ("protocol_type", VStr (jg_protocol_type p));
+        ("group_protocols", VList (map (fun gp : text * obytes =>
+                                          VRec [("protocol_name", VStr (fst gp)); ("protocol_metadata", VStr (snd gp))])
+                                       (jg_protocols p)))].
+
+Theorem join_group_sound cid corr p :
+  run ast_encode_join_group_request [vbytes cid; VInt corr; join_val p] = encode_join_group_request cid corr p.
+Proof.
+  unfold ast_encode_join_group_request, encode_join_group_request, JOIN_GROUP_KEY, join_val. cbn [run]. rewrite run_item_for. dsl.
+  rewrite llen_map, !pack1, enc_all_map.
+  rewrite (enc_all_ext _ (fun gp : text * obytes => do n <- write_short_ascii (fst gp); do md <- write_int_string (snd gp); Ok (n ++ md))).
+  2:{ intros gp _. dsl. bind_cases. }
+  bind_cases.
+Qed.
+
+Definition sync_val (p : sync_group_request) : val :=
+  VRec [("group", VStr (sg_group p)); ("generation_id", VInt (sg_generation_id p)); ("member_id", VStr (sg_member_id p));
+        ("group_assignment", VList (map (fun ma : text * obytes =>
+                                           VRec [("member_id", VStr (fst ma)); ("member_metadata", VStr (snd ma))])
+                                        (sg_assignment p)))].
+
+Theorem sync_group_sound cid corr p :
+  run ast_encode_sync_group_request [vbytes cid; VInt corr; sync_val p] = encode_sync_group_request cid corr p.
+Proof.
+  unfold ast_encode_sync_group_request, encode_sync_group_request, SYNC_GROUP_KEY, sync_val. cbn [run]. rewrite run_item_for. dsl.
+  rewrite llen_map, !pack1, enc_all_map.
+  rewrite (enc_all_ext _ (fun ma : text * obytes => do n <- write_short_text (fst ma); do md <- write_int_string (snd ma); Ok (n ++ md))).
+  2:{ intros ma _. dsl. bind_cases. }
+  bind_cases.
+Qed.
+
+Theorem join_protocol_metadata_sound version subs ud :
+  run ast_encode_join_group_protocol_metadata [VInt version; VList (map VStr subs); VStr ud]
+  = encode_join_group_protocol_metadata version subs ud.
+Proof.
+  unfold ast_encode_join_group_protocol_metadata, encode_join_group_protocol_metadata. cbn [run]. rewrite run_item_for. dsl.
+  rewrite llen_map, enc_all_map.
+  rewrite (enc_all_ext _ write_short_text).
+  2:{ intros t _. dsl. destruct (write_short_text t); cbn [bind]; [now rewrite app_nil_r|reflexivity]. }
+  bind_cases.
+Qed.
+
+Lemma ints_of_map l : ints_of (map VInt l) = Ok l.
+Proof. induction l as [|x r IH]; cbn [map ints_of]; [reflexivity|]. rewrite IH. reflexivity. Qed.
+
+Theorem sync_member_assignment_sound version asg ud :
+  run ast_encode_sync_group_member_assignment
+      [VInt version; VList (map (fun tp : text * list Z => VTup [VStr (fst tp); VList (map VInt (snd tp))]) asg); VStr ud]
+  = encode_sync_group_member_assignment version asg ud.
+Proof.
+  unfold ast_encode_sync_group_member_assignment, encode_sync_group_member_assignment. cbn [run]. rewrite run_item_for. dsl.
+  rewrite llen_map, enc_all_map.
+  rewrite (enc_all_ext _ (fun tp : text * list Z =>
+                            do n <- write_short_ascii (fst tp);
+                            do ps <- pack_list ((Fi, len (snd tp)) :: map (fun x => (Fi, x)) (snd tp)); Ok (n ++ ps))).
+  2:{ intros tp _. dsl. rewrite ints_of_map. cbn [bind]. bind_cases. }
+  cbn [pack_list]. bind_cases.
+Qed.
+
+(* ------------------------------------------------------------------ grouped payloads *)
+Lemma group_map_gen {P Q} (topic : P -> text) (part : P -> Z) (topic' : Q -> text) (part' : Q -> Z) (F : P -> Q) ps :
+  (forall p, topic' (F p) = topic p) -> (forall p, part' (F p) = part p) ->
+  group_by_topic_and_partition topic' part' (map F ps) = map_vals (map_vals F) (group_by_topic_and_partition topic part ps).
+Proof.
+  intros Ht Hp. induction ps as [|x ps IH] using rev_ind; [reflexivity|].
+  rewrite map_app. cbn [map]. rewrite !group_snoc, IH. unfold group_step. rewrite Ht, Hp.
+  symmetry. apply aset_map. intros o.
+  rewrite (aset_map Z.eqb F (part x) (fun _ => x) (fun _ => F x)); [|reflexivity].
+  destruct o; reflexivity.
+Qed.
+
+Definition vgrouped {P} (fv : P -> val) (g : list (text * list (Z * P))) : list val :=
+  map (fun tp => VTup [VStr (fst tp); VList (map (fun pp => VTup [VInt (fst pp); fv (snd pp)]) (snd tp))]) g.
+
+Lemma vgroup_map {P} (topic : P -> text) (part : P -> Z) (fv : P -> val) ps :
+  (forall p, vtopic (fv p) = topic p) -> (forall p, vpartition (fv p) = part p) ->
+  vgroup (map fv ps) = vgrouped fv (group_by_topic_and_partition topic part ps).
+Proof.
+  intros Ht Hp. unfold vgroup, vgrouped. rewrite (group_map_gen topic part vtopic vpartition fv ps Ht Hp).
+  unfold map_vals. rewrite map_map. apply map_ext. intros [t inner]. cbn [fst snd]. rewrite map_map. reflexivity.
+Qed.
+
+(* the two nested loops over a grouped dict, against Model.Requests.encode_topics *)
+Lemma grouped_loops {P} (fv : P -> val) (enc_part : Z * P -> res (list Z)) (inner_body : prog) env (g : list (text * list (Z * P))) :
+  (forall t inner pt x, run inner_body ((env ++ [VTup [VStr t; VList (map (fun pp => VTup [VInt (fst pp); fv (snd pp)]) inner)]])
+                                        ++ [VTup [VInt pt; fv x]]) = enc_part (pt, x)) ->
+  enc_all (fun v => run [IAscii (EIdx (EVar (length env)) 0);
+                         IPack [(Fi, ELen (EIdx (EVar (length env)) 1))];
+                         IFor (EIdx (EVar (length env)) 1) inner_body] (env ++ [v])) (vgrouped fv g)
+  = encode_topics enc_part g.
+Proof.
+  intros H. unfold vgrouped, encode_topics. rewrite enc_all_map. apply enc_all_ext. intros [t inner] _.
+  cbn [run]. rewrite run_item_for.
+  cbn [run_item eval_fields]. unfold eval_str, eval_int. cbn [eval].
+  rewrite !nth_error_app2 by lia. rewrite !Nat.sub_diag. cbn [nth_error bind fst snd].
+  rewrite llen_map, pack1, enc_all_map.
+  rewrite (enc_all_ext _ enc_part).
+  2:{ intros [pt x] _. apply H. }
+  bind_cases.
+Qed.
+
+Lemma llen_vgrouped {P} (fv : P -> val) g : llen (vgrouped fv g) = llen g.
+Proof. unfold vgrouped. apply llen_map. Qed.
+
+(* ------------------------------------------------------------------ Fetch *)
+Definition fetch_val (p : fetch_payload) : val :=
+  VRec [("topic", VStr (fe_topic p)); ("partition", VInt (fe_partition p)); ("offset", VInt (fe_offset p));
+        ("max_bytes", VInt (fe_max_bytes p))].
+
+Definition offset_val (p : offset_payload) : val :=
+  VRec [("topic", VStr (of_topic p)); ("partition", VInt (of_partition p)); ("time", VInt (of_time p));
+        ("max_offsets", VInt (of_max_offsets p))].
+
+Definition commit_val (p : commit_payload) : val :=
+  VRec [("topic", VStr (co_topic p)); ("partition", VInt (co_partition p)); ("offset", VInt (co_offset p));
+        ("timestamp", VInt (co_timestamp p)); ("metadata", VStr (co_metadata p))].
+
+Theorem fetch_sound cid corr ps max_wait min_bytes v :
+  run ast_encode_fetch_request [vbytes cid; VInt corr; VList (map fetch_val ps); VInt max_wait; VInt min_bytes; VInt v]
+  = encode_fetch_request cid corr ps max_wait min_bytes v.
+Proof.
+  unfold ast_encode_fetch_request, encode_fetch_request, FETCH_KEY, fetch_header_version. cbn [run]. rewrite run_item_for.
+  cbn [eval nth_error app]. rewrite (vgroup_map fe_topic fe_partition fetch_val ps) by reflexivity.
+  pose proof (grouped_loops fetch_val
+                (fun pp : Z * fetch_payload => pack_list [(Fi, fst pp); (Fq, fe_offset (snd pp)); (Fi, fe_max_bytes (snd pp))])
+                [IPack [(Fi, EIdx (EVar 7) 0); (Fq, EField (EIdx (EVar 7) 1) "offset"); (Fi, EField (EIdx (EVar 7) 1) "max_bytes")]]
+                [vbytes cid; VInt corr; VList (map fetch_val ps); VInt max_wait; VInt min_bytes; VInt v]
+                (group_by_topic_and_partition fe_topic fe_partition ps)) as G.
+  cbn [length app] in G. rewrite G; [|intros; unfold fetch_val, offset_val, commit_val; dsl; bind_cases]. clear G.
+  dsl. rewrite (vgroup_map fe_topic fe_partition fetch_val ps) by reflexivity. dsl. rewrite llen_vgrouped.
+  unfold eval_int. cbn [eval nth_error]. destruct (2 <=? v)%Z; dsl; bind_cases.
+Qed.
+
+(* ------------------------------------------------------------------ ListOffsets *)
+Theorem offset_sound cid corr ps :
+  run ast_encode_offset_request [vbytes cid; VInt corr; VList (map offset_val ps)] = encode_offset_request cid corr ps.
+Proof.
+  unfold ast_encode_offset_request, encode_offset_request, OFFSET_KEY. cbn [run]. rewrite run_item_for.
+  cbn [eval nth_error app]. rewrite (vgroup_map of_topic of_partition offset_val ps) by reflexivity.
+  pose proof (grouped_loops offset_val
+                (fun pp : Z * offset_payload => pack_list [(Fi, fst pp); (Fq, of_time (snd pp)); (Fi, of_max_offsets (snd pp))])
+                [IPack [(Fi, EIdx (EVar 4) 0); (Fq, EField (EIdx (EVar 4) 1) "time"); (Fi, EField (EIdx (EVar 4) 1) "max_offsets")]]
+                [vbytes cid; VInt corr; VList (map offset_val ps)]
+                (group_by_topic_and_partition of_topic of_partition ps)) as G.
+  cbn [length app] in G. rewrite G; [|intros; unfold fetch_val, offset_val, commit_val; dsl; bind_cases]. clear G.
+  dsl. rewrite (vgroup_map of_topic of_partition offset_val ps) by reflexivity. dsl. rewrite llen_vgrouped.
+  bind_cases.
+Qed.
+
+(* ------------------------------------------------------------------ OffsetCommit *)
+Theorem offset_commit_sound cid corr group gen consumer ps :
+  run ast_encode_offset_commit_request [vbytes cid; VInt corr; VStr group; VInt gen; VStr consumer; VList (map commit_val ps)]
+  = encode_offset_commit_request cid corr group gen consumer ps.
+Proof.
+  unfold ast_encode_offset_commit_request, encode_offset_commit_request, OFFSET_COMMIT_KEY. cbn [run]. rewrite run_item_for.
+  cbn [eval nth_error app]. rewrite (vgroup_map co_topic co_partition commit_val ps) by reflexivity.
+  pose proof (grouped_loops commit_val
+                (fun pp : Z * commit_payload =>
+                   do f <- pack_list [(Fi, fst pp); (Fq, co_offset (snd pp)); (Fq, co_timestamp (snd pp))];
+                   do m <- write_short_bytes (co_metadata (snd pp)); Ok (f ++ m))
+                [IPack [(Fi, EIdx (EVar 7) 0); (Fq, EField (EIdx (EVar 7) 1) "offset"); (Fq, EField (EIdx (EVar 7) 1) "timestamp")];
+                 IShortBytes (EField (EIdx (EVar 7) 1) "metadata")]
+                [vbytes cid; VInt corr; VStr group; VInt gen; VStr consumer; VList (map commit_val ps)]
+                (group_by_topic_and_partition co_topic co_partition ps)) as G.
+  cbn [length app] in G. rewrite G; [|intros; unfold fetch_val, offset_val, commit_val; dsl; bind_cases]. clear G.
+  dsl. rewrite (vgroup_map co_topic co_partition commit_val ps) by reflexivity. dsl. rewrite llen_vgrouped, !pack1.
+  bind_cases.
+Qed.
+
+(* ------------------------------------------------------------------ OffsetFetch: the inner loop runs over the dict KEYS *)
+Definition ofetch_val (p : ofetch_payload) : val :=
+  VRec [("topic", VStr (og_topic p)); ("partition", VInt (og_partition p))].
+
+Theorem offset_fetch_sound cid corr group ps :
+  run ast_encode_offset_fetch_request [vbytes cid; VInt corr; VStr group; VList (map ofetch_val ps)]
+  = encode_offset_fetch_request cid corr group ps.
+Proof.
+  unfold ast_encode_offset_fetch_request, encode_offset_fetch_request, OFFSET_FETCH_KEY. cbn [run]. rewrite run_item_for.
+  cbn [eval nth_error app]. rewrite (vgroup_map og_topic og_partition ofetch_val ps) by reflexivity.
+  assert (G : enc_all (fun v => run [IAscii (EIdx (EVar 4) 0); IPack [(Fi, ELen (EIdx (EVar 4) 1))];
+                                     IFor (EKeys (EIdx (EVar 4) 1)) [IPack [(Fi, EVar 5)]]]
+                                    ([vbytes cid; VInt corr; VStr group; VList (map ofetch_val ps)] ++ [v]))
+                      (vgrouped ofetch_val (group_by_topic_and_partition og_topic og_partition ps))
+              = encode_topics (fun pp : Z * ofetch_payload => pack Fi (fst pp))
+                              (group_by_topic_and_partition og_topic og_partition ps)).
+  { unfold vgrouped, encode_topics. rewrite enc_all_map. apply enc_all_ext. intros [t inner] _.
+    cbn [run]. rewrite run_item_for. dsl. rewrite llen_map, pack1, map_map. cbn [fst snd]. rewrite enc_all_map.
+    rewrite (enc_all_ext _ (fun pp : Z * ofetch_payload => pack Fi (fst pp))).
+    2:{ intros [pt x] _. dsl. rewrite pack1. destruct (pack Fi pt); cbn [bind]; [now rewrite app_nil_r|reflexivity]. }
+    bind_cases. }
+  cbn [app] in G. rewrite G. clear G.
+  dsl. rewrite (vgroup_map og_topic og_partition ofetch_val ps) by reflexivity. dsl. rewrite llen_vgrouped, !pack1.
+  bind_cases.
+Qed.
+
+(* ------------------------------------------------------------------ Produce (message lists that carry their timestamps)
+   The encoder language does not model the clock: ILetMsgSet stamps a format-1 message that has no timestamp with 0.
+   For payloads whose format-1 messages all carry a timestamp ([stamped]; true of everything create_message builds) the
+   clock is never read and the term computes exactly the model, whatever the clock. *)
+Definition produce_val (p : produce_payload) : val :=
+  VRec [("topic", VStr (pr_topic p)); ("partition", VInt (pr_partition p)); ("messages", VMsgs (pr_messages p))].
+
+Definition msgs_stamped (msgs : list message) : bool := forallb (fun m => negb (uses_clock m)) msgs.
+Definition stamped (ps : list produce_payload) : bool := forallb (fun p => msgs_stamped (pr_messages p)) ps.
+
+Lemma encode_message_no_clock a b m : uses_clock m = false -> encode_message a m = encode_message b m.
+Proof.
+  unfold uses_clock, encode_message. intros U. destruct (m_magic m =? 0)%Z; [reflexivity|].
+  destruct (m_magic m =? 1)%Z; [|reflexivity]. destruct (m_ts m); [reflexivity|discriminate U].
+Qed.
+
+Lemma encode_set_no_clock clock clock' msgs : forall k k' o i mg,
+  msgs_stamped msgs = true ->
+  encode_message_set_from clock k msgs o i mg = encode_message_set_from clock' k' msgs o i mg.
+Proof.
+  induction msgs as [|m r IH]; intros k k' o i mg H; cbn [encode_message_set_from]; [reflexivity|].
+  unfold msgs_stamped in H. cbn [forallb] in H. apply andb_prop in H. destruct H as [Hm Hr]. apply negb_true_iff in Hm.
+  rewrite Hm. rewrite (encode_message_no_clock (clock k) (clock' k') m Hm). rewrite (IH k k' (o + i)%Z i mg Hr). reflexivity.
+Qed.
+
+Definition enc_produce_part (magic : Z) (pp : Z * produce_payload) : res (list Z) :=
+  do ms <- encode_message_set (fun _ => 0%Z) O (pr_messages (snd pp)) None magic;
+  do ph <- pack_list [(Fi, fst pp); (Fi, len ms)];
+  Ok (ph ++ ms).
+
+Lemma produce_partitions_no_clock clock magic : forall ps k,
+  (forall pp, In pp ps -> msgs_stamped (pr_messages (snd pp)) = true) ->
+  encode_produce_partitions clock k magic ps = enc_all (enc_produce_part magic) ps.
+Proof.
+  induction ps as [|[pt x] r IH]; intros k H; cbn [encode_produce_partitions enc_all]; [reflexivity|].
+  rewrite (IH _ (fun pp I => H pp (or_intror I))). unfold enc_produce_part at 1. cbn [fst snd].
+  unfold encode_message_set.
+  rewrite (encode_set_no_clock clock (fun _ => 0%Z) (pr_messages x) k O 0%Z 0%Z magic (H (pt, x) (or_introl eq_refl))).
+  bind_cases.
+Qed.
+
+Lemma produce_topics_no_clock clock magic : forall g k,
+  (forall tp pp, In tp g -> In pp (snd tp) -> msgs_stamped (pr_messages (snd pp)) = true) ->
+  encode_produce_topics clock k magic g = encode_topics (enc_produce_part magic) g.
+Proof.
+  unfold encode_topics. induction g as [|[t inner] r IH]; intros k H; cbn [encode_produce_topics enc_all]; [reflexivity|].
+  rewrite (IH _ (fun tp pp I1 I2 => H tp pp (or_intror I1) I2)).
+  rewrite (produce_partitions_no_clock clock magic inner k (fun pp I => H (t, inner) pp (or_introl eq_refl) I)).
+  cbn [fst snd]. bind_cases.
+Qed.
+
+Theorem produce_sound clock cid corr ps acks timeout v :
+  stamped ps = true ->
+  run ast_encode_produce_request [vbytes cid; VInt corr; VList (map produce_val ps); VInt acks; VInt timeout; VInt v]
+  = encode_produce_request clock cid corr ps acks timeout v.
+Proof.
+  intros ST.
+  unfold ast_encode_produce_request, encode_produce_request, PRODUCE_KEY, produce_header_version. cbn [run]. rewrite run_item_for.
+  cbn [eval nth_error app]. rewrite (vgroup_map pr_topic pr_partition produce_val ps) by reflexivity.
+  rewrite (produce_topics_no_clock clock (produce_magic v) (group_by_topic_and_partition pr_topic pr_partition ps) O).
+  2:{ intros [t inner] [pt x] I1 I2. cbn [snd] in *.
+      destruct (group_sound pr_topic pr_partition ps t inner pt x I1 I2) as (Ix & _ & _).
+      unfold stamped in ST. rewrite forallb_forall in ST. exact (ST x Ix). }
+  pose proof (grouped_loops produce_val (enc_produce_part (produce_magic v))
+                [ILetMsgSet (EField (EIdx (EVar 7) 1) "messages") (EIfGe (EVar 5) 2 (EConst 1) (EConst 0))
+                   [IPack [(Fi, EIdx (EVar 7) 0); (Fi, ELen (EVar 8))]; IRaw (EVar 8)]]
+                [vbytes cid; VInt corr; VList (map produce_val ps); VInt acks; VInt timeout; VInt v]
+                (group_by_topic_and_partition pr_topic pr_partition ps)) as G.
+  cbn [length app] in G. rewrite G; clear G.
+  - dsl. rewrite (vgroup_map pr_topic pr_partition produce_val ps) by reflexivity. dsl. rewrite llen_vgrouped.
+    unfold eval_int. cbn [eval nth_error]. destruct (2 <=? v)%Z; dsl; bind_cases.
+  - intros t inner pt x. cbn [run]. rewrite run_item_let. unfold produce_val, enc_produce_part, produce_magic.
+    dsl. unfold eval_int. cbn [eval nth_error fst snd]. destruct (2 <=? v)%Z; cbn [bind];
+      destruct (encode_message_set (fun _ => 0%Z) O (pr_messages x) None _) as [ms|]; cbn [bind]; try reflexivity;
+      dsl; bind_cases.
+Qed.
